@@ -366,9 +366,28 @@ class ExprMixin(CallMixin):
                     tr = tr + (("format", ast.unparse(v.format_spec)),)
                 if isinstance(val, (NodeV, NewNode)):
                     self.event("node_in_string", node=_describe(val))
+                self._node_text_hooks(val, v.conversion, module)
                 parts.extend(to_str_parts(val, tr))
         s = Str(parts)
         return Const(s.const()) if s.is_const() else s
+
+    def _node_text_hooks(self, val, conversion, module):
+        """Formatting an AST node - or a SLY token, whose repr() is the repr() of its value - runs the node class's own __repr__ / __str__ /
+        __format__ when it defines one: whatever that raises is raised by the formatting expression."""
+        via_token = isinstance(val, TokV)
+        node = val.attrs.get("value") if via_token else val
+        if not isinstance(node, NodeV):
+            return
+        names = ["__repr__"] if (via_token or conversion == ord("r")) else ["__format__", "__str__", "__repr__"]
+        for k in sorted(node.kinds):
+            for nm in names:
+                r = self.repo.lookup_method("odata_query.ast." + k, nm)
+                if r is None:
+                    continue
+                ci, fn = r
+                args = [NodeV(node.path, {k})] + ([Const("")] if nm == "__format__" else [])
+                self.call_function(ci.module, fn, args, {}, ci.qual)
+                break
 
     def ev_Tuple(self, e, env, module):
         return PyTuple(self.eval_seq(e.elts, env, module))
